@@ -892,7 +892,7 @@ impl Prop for C02 {
         check_code_sequence(&code_sequence(u64::from_le_bytes(a), data[0] as usize), cx)
     }
     fn rule(&self) -> &'static str {
-        "random forests: 1-3 units per section (.debug_info with every DWARF 5 unit type and v2-4 compile units; .debug_types with v2-4 type units), each a generated tree of 1-40 entries (shapes: random, deep chain, wide, leaf-only, empty child lists, trailing null padding), units differing in version/format/address size, shared or separate abbreviation tables, abbreviation code schemes {sequential, permuted declaration order, sparse, huge >= 2^63, dense-sparse-dense, aliasing modulo 2^32}, DW_AT_sibling none / on all parents / on a subset in forms ref1/2/4/8/udata. Oracle: the assembler's record (offset, depth, tag, children flag, attribute count, parent) per entry. Compared: raw read_entry with next_offset/next_depth, the same walk with read_abbreviation + skip_attributes (attributes incl. DW_FORM_indirect after fixed-size and block forms), next_dfs, next_entry incl. nulls, next_sibling from every parent, full and children-only walks of the tree iterator from every entry, entry()/entries_raw/entries_tree/entries_at_offset positioned at every entry and null, header accessors and offset conversions, Abbreviations::get for present and absent (+-1, +-2^32, |2^63) codes; separate mode: tables with a duplicated code must be rejected; exhaustive mode: every declaration order of up to 5 (thorough: 7) codes over {1..6, 2^40, 2^64-1} is rejected exactly when a code repeats and otherwise maps every code to its own declaration. Non-trivial = >=5 entries, depth >=3 and a node with >=2 children that themselves have children; distinct by choice string. Later additions: palettes with the supplementary-file forms; sibling pointers on entries without children; the std Iterator view of the unit-header iterators."
+        "random forests: 1-3 units per section (.debug_info with every DWARF 5 unit type and v2-4 compile units; .debug_types with v2-4 type units), each a generated tree of 1-40 entries (shapes: random, deep chain, wide, leaf-only, empty child lists, trailing null padding), units differing in version/format/address size, shared or separate abbreviation tables, abbreviation code schemes {sequential, permuted declaration order, sparse, huge >= 2^63, dense-sparse-dense, aliasing modulo 2^32}, DW_AT_sibling none / on all parents / on a subset in forms ref1/2/4/8/udata. Oracle: the assembler's record (offset, depth, tag, children flag, attribute count, parent) per entry. Compared: raw read_entry with next_offset/next_depth, the same walk with read_abbreviation + skip_attributes (attributes incl. DW_FORM_indirect after fixed-size and block forms), next_dfs, next_entry incl. nulls, next_sibling from every parent, full and children-only walks of the tree iterator from every entry, entry()/entries_raw/entries_tree/entries_at_offset positioned at every entry and null, header accessors and offset conversions, Abbreviations::get for present and absent (+-1, +-2^32, |2^63) codes; separate mode: tables with a duplicated code must be rejected; exhaustive mode: every declaration order of up to 5 (thorough: 7) codes over {1..6, 2^40, 2^64-1} is rejected exactly when a code repeats and otherwise maps every code to its own declaration. Non-trivial = >=5 entries, depth >=3 and a node with >=2 children that themselves have children; distinct by choice string. Later additions: palettes with the supplementary-file forms; sibling pointers on entries without children; the std Iterator view of the unit-header iterators. Round-8 additions: indirect attributes whose actual form is a vendor form (two-byte form code); unit offset conversions in both unit sections."
     }
     fn assumptions(&self) -> Vec<&'static str> {
         vec![
